@@ -41,7 +41,7 @@ type cfg struct {
 	repo, hdir, prop, tier, run, outDir, evidence, known string
 	workers, seed, maxPaths, samples, timeoutMs, unwind  int
 	deadline                                             time.Duration
-	verbose, noReplay                                    bool
+	verbose, noReplay, noMerge                           bool
 	replay                                               string
 	level                                                string
 }
@@ -114,6 +114,7 @@ func main() {
 	flag.IntVar(&c.unwind, "unwind", 100000, "default loop unwinding bound per frame")
 	flag.DurationVar(&c.deadline, "deadline", 0, "per-harness wall-clock cap (0 = none)")
 	flag.BoolVar(&c.verbose, "v", false, "verbose")
+	flag.BoolVar(&c.noMerge, "no-merge", false, "disable state merging (ite) at symbolic branches")
 	flag.StringVar(&c.replay, "replay", "", "replay a counterexample file natively and exit")
 	flag.BoolVar(&c.noReplay, "no-replay", false, "skip native replay/validation (development only; never registered)")
 	flag.Parse()
@@ -248,6 +249,8 @@ func run(c *cfg) int {
 	env.Verbose = c.verbose
 	env.Tier = c.tier
 	env.ModPath = modPath
+	env.NoMerge = c.noMerge
+	env.Progress = true
 	env.DumpDir = filepath.Join(c.outDir, "smt")
 	os.MkdirAll(env.DumpDir, 0o755)
 
@@ -291,8 +294,8 @@ func run(c *cfg) int {
 			h, st := env.Explore(it.name, it.fn)
 			w := time.Since(hs).Seconds()
 			results[i] = &harnessResult{run: h, stats: st, pkg: it.rel, wall: w}
-			fmt.Printf("[symgo] %-40s paths=%d completed=%d pruned=%d panicked=%d errors=%d violations=%d queries=%d solver=%.1fs wall=%.1fs\n",
-				it.name, h.Paths, h.Completed, h.Pruned, h.Panicked, len(h.Errors), len(h.Violations), st.Queries, st.Seconds, w)
+			fmt.Printf("[symgo] %-40s paths=%d completed=%d pruned=%d panicked=%d errors=%d violations=%d queries=%d fp=%d merges=%d solver=%.1fs wall=%.1fs\n",
+				it.name, h.Paths, h.Completed, h.Pruned, h.Panicked, len(h.Errors), len(h.Violations), st.Queries, h.FPOps, h.Merges, st.Seconds, w)
 		}()
 	}
 	wg.Wait()
